@@ -39,6 +39,10 @@ type peeringRequestState struct { //nolint:maligned
 
 	client  bool
 	session *state.Session
+	// kx holds the key exchange of this handshake. It is private to this
+	// connection: the session is shared with every other connection to the
+	// same router and with the hello ping handler.
+	kx *state.EncryptionSession
 
 	remoteIP      netip.Addr
 	remoteVersion string
@@ -125,6 +129,7 @@ func (p *Peering) createPeeringRequest(client bool) (*peeringRequestState, frame
 		challenge: challenge,
 		client:    client,
 		step:      1,
+		kx:        state.NewEncryptionSession(),
 	}, f, nil
 }
 
@@ -256,7 +261,7 @@ func (state *peeringRequestState) handlePeeringRequest(in frame.Frame) (frame.Fr
 
 	// Generate key exchange.
 	if state.client {
-		kxKey, kxType, err := state.session.Encryption().InitKeyClientStart()
+		kxKey, kxType, err := state.kx.InitKeyClientStart()
 		if err != nil {
 			return nil, fmt.Errorf("init key exchange: %w", err)
 		}
@@ -342,7 +347,7 @@ func (state *peeringRequestState) handlePeeringResponse(in frame.Frame) (frame.F
 		if len(r.KeyExchange) == 0 || r.KeyExchangeType == "" {
 			return nil, errors.New("key exchange missing")
 		}
-		kxKey, kxType, err := state.session.Encryption().InitKeyServer(r.KeyExchange, r.KeyExchangeType)
+		kxKey, kxType, err := state.kx.InitKeyServer(r.KeyExchange, r.KeyExchangeType)
 		if err != nil {
 			return nil, fmt.Errorf("process key exchange: %w", err)
 		}
@@ -403,7 +408,7 @@ func (state *peeringRequestState) handlePeeringAck(in frame.Frame) error {
 		if len(r.KeyExchange) == 0 || r.KeyExchangeType == "" {
 			return errors.New("key exchange missing")
 		}
-		if err := state.session.Encryption().InitKeyClientComplete(r.KeyExchange, r.KeyExchangeType); err != nil {
+		if err := state.kx.InitKeyClientComplete(r.KeyExchange, r.KeyExchangeType); err != nil {
 			return fmt.Errorf("complete key exchange: %w", err)
 		}
 	}
@@ -413,9 +418,15 @@ func (state *peeringRequestState) handlePeeringAck(in frame.Frame) error {
 
 func (state *peeringRequestState) finalize() (*state.EncryptionSession, error) {
 	// Clean up exchange keys when done.
-	defer state.session.Encryption().InitCleanup()
+	defer state.kx.InitCleanup()
 	// Derive link layer encryption session.
-	return state.session.Encryption().DeriveSessionFromKX(state.client, "link layer crypt")
+	return state.kx.DeriveSessionFromKX(state.client, "link layer crypt")
+}
+
+// commit makes the keys agreed in this handshake the end-to-end keys of the
+// session with the peer. Call it once the link of this handshake is registered.
+func (state *peeringRequestState) commit() error {
+	return state.peering.instance.State().SetEncryptionSession(state.remoteIP, state.kx)
 }
 
 func makeUniverseAuth(universe, secret string, challenge []byte, remoteIP, idIP netip.Addr) []byte {
